@@ -430,7 +430,19 @@ func runSolver(ctx context.Context, s solverCfg, file string, timeout time.Durat
 	_ = cmd.Run()
 	dur = time.Since(t0).Seconds()
 	out = buf.String()
-	first := strings.TrimSpace(strings.SplitN(out, "\n", 2)[0])
+	// the verdict is the first line that is not a solver warning; an "(error" anywhere invalidates it
+	first := ""
+	for _, ln := range strings.Split(out, "\n") {
+		ln = strings.TrimSpace(ln)
+		if ln == "" || strings.HasPrefix(ln, "WARNING") {
+			continue
+		}
+		first = ln
+		break
+	}
+	if strings.Contains(out, "(error") {
+		first = "error: " + first
+	}
 	switch first {
 	case "sat", "unsat", "unknown":
 		status = first
